@@ -37,6 +37,9 @@ package jsonapi
 //@ requires nonnil: c != nil
 //@ requires well-typed-filter: filter != nil ==> (forall x Resource :: C_has($rh, c, x) ==> wtNow(filter, x))
 //@ requires page-in-range: num * size < 9223372036854775808
+//@ exit-assert page-len: skip < len(col.col) ==> len(page) == ite(size < len(col.col) - skip, size, len(col.col) - skip)
+//@ exit-assert page-elems: skip < len(col.col) ==> (forall k int :: 0 <= k && k < len(page) ==> page[k] == col.col[skip + k])
+//@ exit-assert page-empty: skip == num * size && (skip >= len(col.col) ==> len(page) == 0)
 //@ modifies new[Resource], new[Resources], new[string], new[sortedResources]
 //@ ensures non-nil: result != nil && dyn(result) == type[*Resources] && fresh(unbox(result, type[*Resources]))
 //@ ensures page-size: len(*unbox(result, type[*Resources])) <= size
@@ -47,7 +50,9 @@ package jsonapi
 //@ loop 2 invariant col: (cap(col.col) == 0 || fresh(col.col)) && unchanged(heap[Resource]) && 0 <= i#1 && picked(col.col, c, ids) && len(ids) == 0
 //@ loop 3 invariant col: (cap(col.col) == 0 || fresh(col.col)) && unchanged(heap[Resource]) && 0 <= i#2 && i#2 <= len(col.col) && picked(col.col, c, ids)
 //@ loop 3 invariant allowed-so-far: forall k int :: 0 <= k && k < i#2 ==> allowedAtEntry(filter, col.col[k])
-//@ loop 4 invariant page: (cap(page) == 0 || fresh(page)) && unchanged(heap[Resource]) && unchanged(heap[[]Resource]) && skip <= i#3 && len(page) == i#3 - skip && (size >= 9223372036854775808 ==> len(page) == 0) && (size < 9223372036854775808 ==> len(page) <= size)
+//@ loop 4 invariant page: (cap(page) == 0 || fresh(page)) && unchanged(heap[Resource]) && unchanged(heap[[]Resource]) && skip <= i#3 && i#3 <= len(col.col) && len(page) == i#3 - skip && len(page) <= size
+//@ loop 4 invariant separate: loopkept(heap[Resource]) && loopold(col.col) && (cap(page) == 0 || loopfresh(page)) && col.col == pre(col.col)
+//@ loop 4 invariant page-elems: forall k int :: 0 <= k && k < len(page) ==> page[k] == col.col[skip + k]
 //@ loop 4 invariant page-selected: allSelected(page, c, ids, filter)
 //@ loop 4 invariant col-selected: allSelected(col.col, c, ids, filter)
 //@ assert before Sort#0 selected-before-sort: allSelected(col.col, c, ids, filter)
